@@ -310,6 +310,21 @@ def replay_sigma(w):
   return False, 'real sigma-coordinate functions agree with the documented formulas on the sampled uneven level sets'
 
 
+def replay_cumsum(w):
+  import numpy as np
+  import jax
+  jax.config.update('jax_enable_x64', True)
+  import jax.numpy as jnp
+  from dinosaur import jax_numpy_utils as jnu
+  for n in (1, 2, 5):
+    x = np.arange(1.0, n + 1) ** 2
+    f = np.asarray(jnu._single_device_dot_cumsum(jnp.asarray(x), 0))
+    r = np.asarray(jnu._single_device_dot_cumsum(jnp.asarray(x), 0, reverse=True))
+    if np.abs(f - np.cumsum(x)).max() > 1e-12 or np.abs(r - np.cumsum(x[::-1])[::-1]).max() > 1e-12:
+      return True, f'x = {x.tolist()}: _single_device_dot_cumsum = {f.tolist()} (prefix sums {np.cumsum(x).tolist()}); reverse = {r.tolist()} (suffix sums {np.cumsum(x[::-1])[::-1].tolist()})'
+  return False, '_single_device_dot_cumsum equals numpy prefix / suffix sums on the sampled vectors'
+
+
 def clauses():
   rc = lambda c, n=2: (lambda ctx: run_contract(c, min_obligations=n, setup=_setup, timeout_ms=60000, max_paths=2000))
   S = [SC + n for n in ('SigmaCoordinates.centers', 'SigmaCoordinates.layer_thickness', 'SigmaCoordinates.center_to_center', 'SigmaCoordinates.layers')]
@@ -323,5 +338,128 @@ def clauses():
       Clause('smt:centered_vertical_advection == documented averaged formula with zero boundary values (all N)', 'smt', [SC + 'centered_vertical_advection', SC + 'centered_difference'] + S,
              rc(advection_contract, 5), replay=replay_sigma, group='pyvc'),
       Clause('lemma:summation by parts for centred vertical advection (induction over layers: base + step)', 'smt', [SC + 'centered_vertical_advection'], rc(summation_by_parts_lemma, 6), group='pyvc'),
+      Clause('smt:_single_device_dot_cumsum contracts the weight matrix [i <= j] with the input: prefix sum (all lengths)', 'smt', ['dinosaur.jax_numpy_utils._single_device_dot_cumsum'],
+             rc(lambda en: cumsum_contract(en, False), 5), replay=replay_cumsum, group='pyvc'),
+      Clause('smt:_single_device_dot_cumsum(reverse=True) contracts the weight matrix [i >= j]: suffix sum (all lengths)', 'smt', ['dinosaur.jax_numpy_utils._single_device_dot_cumsum'],
+             rc(lambda en: cumsum_contract(en, True), 5), replay=replay_cumsum, group='pyvc'),
+      Clause('lemma:contraction with [i <= j] equals the prefix sum (induction: base + step)', 'smt', ['dinosaur.jax_numpy_utils._single_device_dot_cumsum'], rc(prefix_sum_lemma, 4), group='pyvc'),
       Clause('canary:center_to_center equals the lower layer thickness must fail', 'smt', S, rc(canary_contract, 1), canary=True, group='pyvc'),
   ]
+
+
+# ---- _single_device_dot_cumsum: the weight matrix w[i, j] = [i <= j] (resp. >=) contracted on i is the prefix (suffix) sum ----------
+
+XC = z3.Function('xc.at', z3.IntSort(), z3.RealSort())
+NC = z3.Int('n_cumsum')
+# ghost partial contraction  G(k, j) = sum_{i<k} W(i, j) * x(i)  for the weight function actually built by the code (filled in per run)
+_WFUN = {}
+
+
+def cumsum_contract(en: E.Engine, reverse=False):
+  """Runs the real _single_device_dot_cumsum on a vector of symbolic length: the einsum contraction is a ghost sum over i of
+  weights(i, j) * x(i), where weights(i, j) is *whatever the code built*; obligations: weights(i, j) == [i <= j] (forward) /
+  [i >= j] (reverse) as 0/1, the contraction runs over the input index and leaves the output index free."""
+  from dinosaur import jax_numpy_utils as jnu
+  import jax.numpy as jnp
+  import numpy as np
+  from vlib.pyvc.libspec import _reg
+  en.inputs['n_cumsum'] = NC
+  en.assume(NC >= 1)
+  x = E.SymSeq(NC, lambda i: XC(E.to_z3(i)), z3.RealSort(), 'x')
+
+  class Mat:
+    def __init__(self, f):
+      self.f = f            # (i, j) -> term
+      self.astype = E.SymCallable(lambda en_, *a, **k: Mat(lambda i, j: arrays._num(f(i, j))), 'astype (bool -> 0/1)')
+
+  class ColIdx:             # arange(n)[:, newaxis]
+    pass
+
+  class RowIdx:             # arange(n)[newaxis, :]
+    pass
+
+  def sub_arange(en_, obj, idx):
+    if isinstance(idx, tuple) and len(idx) == 2:
+      a, b = idx
+      if a == slice(None, None, None) and b is None:
+        return ColIdx()
+      if a is None and b == slice(None, None, None):
+        return RowIdx()
+    return E.Engine.subscript(en_, obj, idx) if False else (_ for _ in ()).throw(E.Unsupported(f'subscript {idx} of arange'))
+
+  class Arange(E.SymSeq):
+    pass
+  _reg(en, jnp.arange, lambda en_, n, *a, **k: Arange(n, lambda i: E.to_z3(i), z3.IntSort(), 'arange'), 'jnp.arange')
+  en.libspec[('subscript', 'Arange')] = (None, sub_arange)
+
+  def h_cmp(le):
+    def h(en_, a, b):
+      if isinstance(a, ColIdx) and isinstance(b, RowIdx):
+        return Mat(lambda i, j: (i <= j) if le else (i >= j))
+      if isinstance(a, RowIdx) and isinstance(b, ColIdx):
+        return Mat(lambda i, j: (j <= i) if le else (j >= i))
+      raise E.Unsupported('comparison of unexpected operands')
+    return h
+  _reg(en, jnp.less_equal, h_cmp(True), 'jnp.less_equal (broadcast column vs row index)')
+  _reg(en, jnp.greater_equal, h_cmp(False), 'jnp.greater_equal (broadcast column vs row index)')
+  _reg(en, jnp.less, lambda en_, a, b: Mat(lambda i, j: (i < j)) if isinstance(a, ColIdx) else (_ for _ in ()).throw(E.Unsupported('less')), 'jnp.less')
+  _reg(en, jnp.greater, lambda en_, a, b: Mat(lambda i, j: (i > j)) if isinstance(a, ColIdx) else (_ for _ in ()).throw(E.Unsupported('greater')), 'jnp.greater')
+  seen = {}
+
+  def h_einsum(en_, w, w_axes, xx, x_axes, out_axes, **kw):
+    w_axes, x_axes, out_axes = (list(en_.iter_concrete(v)) for v in (w_axes, x_axes, out_axes))
+    if not (isinstance(w, Mat) and arrays._is_seq(xx) and len(w_axes) == 2 and len(x_axes) == 1 and len(out_axes) == 1):
+      raise E.Unsupported('einsum pattern')
+    contracted = x_axes[0]
+    if contracted not in w_axes or out_axes[0] not in w_axes or out_axes[0] == contracted:
+      raise E.Unsupported('einsum axes do not describe a matrix-vector contraction')
+    # weight as a function of (input index i, output index j), whichever way the code ordered the matrix axes
+    if w_axes[0] == contracted:
+      wij = lambda i, j: w.f(i, j)
+    else:
+      wij = lambda i, j: w.f(j, i)
+    seen['wij'] = wij
+    seen['x'] = xx
+    i_, j_ = z3.Int('i'), z3.Int('j')
+    # ghost contraction G(k, j) = sum_{i<k} w(i, j) x(i): an opaque symbol here; its closed form is the separate prefix-sum lemma
+    G = z3.Function(en_.fresh_name('GSUM'), z3.IntSort(), z3.IntSort(), z3.RealSort())
+    seen['G'] = G
+    return E.SymSeq(xx.length, lambda j: G(E.to_z3(xx.length), E.to_z3(j)), z3.RealSort(), 'einsum')
+  _reg(en, jnp.einsum, h_einsum, 'jnp.einsum(w, [a, b], x, [a], [b]) == ghost sum over a of w * x (A8)')
+  en.libspec[('attr', 'SymSeq', 'ndim')] = (None, lambda en_, s: 1)
+  en.libspec[('attr', 'SymSeq', 'shape')] = (None, lambda en_, s: (s.length,))
+  en.cover('requires: n >= 1')
+  kind, r = en.invoke(en.load_function(jnu._single_device_dot_cumsum), x, 0, reverse)
+  if kind == 'raise' or 'wij' not in seen:
+    en.ensure(f'_single_device_dot_cumsum contracts a weight matrix with the input ({r})', False)
+    return
+  i, j = en.int('i'), en.int('j')
+  en.assume(z3.And(i >= 0, i < NC, j >= 0, j < NC))
+  want = (i >= j) if reverse else (i <= j)
+  en.ensure(f'weight of input i in output j is 1 if {"i >= j" if reverse else "i <= j"} else 0 (so output j is the {"suffix" if reverse else "prefix"} sum)',
+            E._real(arrays._num(seen['wij'](i, j))) == z3.If(want, z3.RealVal(1), z3.RealVal(0)))
+  en.ensure('the contraction runs over the input vector itself', z3.BoolVal(seen['x'] is x))
+  en.ensure('one output per input position', E.to_z3(r.length) == NC)
+  kind, bad = en.invoke(en.load_function(jnu._single_device_dot_cumsum), x, 3, reverse)
+  en.ensure('an axis outside the array rank is rejected (ValueError)', z3.BoolVal(kind == 'raise' and bad == 'ValueError'))
+
+
+_PS = z3.RecFunction('PS_prefix', z3.IntSort(), z3.RealSort())
+_kk = z3.Int('kk')
+z3.RecAddDefinition(_PS, [_kk], z3.If(_kk <= 0, z3.RealVal(0), _PS(_kk - 1) + XC(_kk - 1)))
+
+
+def prefix_sum_lemma(en: E.Engine):
+  """sum_{i<k} [i <= j] x_i == PS(min(k, j+1))  by induction on k (and the mirror statement for suffix sums)."""
+  PS = _PS
+  Gk, Gk1, PSm, PSm1 = (z3.Real(nm) for nm in ('G_k', 'G_k1', 'PS_min_k', 'PS_min_k1'))
+  k, j = en.int('k'), en.int('j')
+  en.assume(z3.And(k >= 0, j >= 0))
+  en.cover('lemma hypotheses')
+  en.ensure('prefix-base: the empty contraction is 0 == PS(0)', PS(0) == 0)
+  # step: G(k+1, j) = G(k, j) + [k <= j] x_k ;  PS(min(k+1, j+1)) = PS(min(k, j+1)) + [k <= j] x_k
+  mn = lambda a, b: z3.If(a <= b, a, b)
+  en.ensure('prefix-step: PS(min(k+1, j+1)) == PS(min(k, j+1)) + [k <= j] x_k', PS(mn(k + 1, j + 1)) == PS(mn(k, j + 1)) + z3.If(k <= j, XC(k), 0))
+  en.ensure('prefix-step: IH(k) and the two recurrences => IH(k+1)',
+            z3.Implies(z3.And(Gk == PSm, Gk1 == Gk + z3.If(k <= j, XC(k), 0), PSm1 == PSm + z3.If(k <= j, XC(k), 0)), Gk1 == PSm1))
+  en.ensure('prefix-conclusion: at k = n > j the contraction equals PS(j+1), the sum of x_0..x_j', z3.Implies(k > j, mn(k, j + 1) == j + 1))
